@@ -124,6 +124,7 @@ type exchange struct {
 	cbURLs                                 []string
 	rewrite                                bool // the handler behind the state listener replaces req.URL (a re-routing handler)
 	connHdr                                string
+	hints                                  bool // the backend sends a 103 Early Hints response before anything else
 	gz                                     bool // the client asks for gzip and the backend answers with a gzip-encoded body
 	rtCalled                               bool
 	rtErr                                  error
@@ -170,7 +171,7 @@ type statusRecorder struct {
 
 func (s *statusRecorder) WriteHeader(code int) {
 	s.x.mu.Lock()
-	if s.x.proxyStatus == 0 {
+	if s.x.proxyStatus == 0 && code >= 200 { // (interim 1xx responses are not the response's status)
 		s.x.proxyStatus = code
 	}
 	s.x.mu.Unlock()
@@ -295,7 +296,11 @@ func (e *env) proxy(w http.ResponseWriter, r *http.Request) {
 		defer cancel()
 		r = r.WithContext(ctx)
 	}
-	l.ServeHTTP(&statusRecorder{ResponseWriter: w, x: x}, r)
+	var rw http.ResponseWriter = &statusRecorder{ResponseWriter: w, x: x}
+	if x.status%2 == 0 || x.hints {
+		rw = utils.NewProxyWriter(rw) // the forwarder behind a middleware that hands it the library's own writer (trace, a breaker)
+	}
+	l.ServeHTTP(rw, r)
 }
 
 // rawBackend speaks HTTP by hand so that it can fail at a chosen point.
@@ -333,6 +338,9 @@ func (e *env) serveRaw(c net.Conn) {
 		}
 	}()
 	readHead(c)
+	if x.hints {
+		_, _ = c.Write([]byte("HTTP/1.1 103 Early Hints\r\nLink: </style.css>; rel=preload\r\n\r\n"))
+	}
 	switch x.mode {
 	case 2: // RST before the head
 		if tc, ok := c.(*net.TCPConn); ok {
@@ -436,6 +444,10 @@ func (c *comp) Gen(rng *rand.Rand, idx int, tier string, targeted bool) hlib.His
 			h.Ops = append(h.Ops, []int64{3, hlib.Pick(rng, 3, 20, 70, 70, 130)})
 			continue
 		}
+		if rng.Intn(15) == 0 {
+			h.Ops = append(h.Ops, []int64{4, hlib.Pick(rng, 1, 2)})
+			continue
+		}
 		mode := hlib.Pick(rng, 0, 0, 0, 0, 1, 2, 3, 4, 5, 6, 6, 7, 8, 9)
 		if targeted {
 			mode = hlib.Pick(rng, 0, 1, 2, 3, 4, 5, 6, 6, 6, 7, 8, 8, 9)
@@ -449,6 +461,9 @@ func (c *comp) Gen(rng *rand.Rand, idx int, tier string, targeted bool) hlib.His
 		size := sizes[rng.Intn(len(sizes))]
 		if (mode == 6 || mode == 8) && size < 2 {
 			size = 100
+		}
+		if (mode == 0 || mode == 4 || mode == 5 || mode == 9) && rng.Intn(3) == 0 {
+			mode += 100 // early hints first
 		}
 		h.Ops = append(h.Ops, []int64{1, mode, statuses[rng.Intn(len(statuses))], size, int64(rng.Intn(2)), int64(1 + rng.Intn(4))})
 	}
@@ -518,11 +533,18 @@ func (c *comp) Run(h *hlib.History) ([]hlib.Mon, bool) {
 				hit("error handler: %s (request context state %d) -> status %d, want %d", ce.name, op[6], rec.Code, want)
 			}
 		case 1:
+			hints := false
+			if op[1] == 100 || op[1] == 104 || op[1] == 105 || op[1] == 109 {
+				// the backend sends "103 Early Hints" first, then behaves as in mode-100 (normal, header timeout, client gone,
+				// request deadline): the interim response changes nothing in what follows
+				hints = true
+				op = append([]int64{op[0], op[1] - 100}, op[2:]...)
+			}
 			if len(op) != 6 || op[1] < 0 || op[1] > 9 || op[2] < 200 || op[2] > 599 || op[3] < 0 || op[3] > 1<<20 || op[4] < 0 || op[4] > 1 || op[5] < 1 || op[5] > 16 {
 				return nil, false
 			}
 			x := &exchange{mode: int(op[1]), status: int(op[2]), bodyLen: int(op[3]), framing: int(op[4]), pieces: int(op[5]),
-				done: make(chan struct{}), backendDone: make(chan struct{}, 1), backendURL: e.rawURL}
+				done: make(chan struct{}), backendDone: make(chan struct{}, 1), backendURL: e.rawURL, hints: hints}
 			if (x.mode == 6 || x.mode == 8) && x.bodyLen < 2 {
 				return nil, false
 			}
@@ -643,6 +665,45 @@ func (c *comp) Run(h *hlib.History) ([]hlib.Mon, bool) {
 			h.Obs = append(h.Obs, []int64{int64(intact)})
 			if problem != "" {
 				hit("%d responses of %d bytes relayed at the same time: %s", op[1], op[2], problem)
+			}
+		case 4:
+			// a request that reaches the state listener and the forwarder with its context already done (the client gave up, or
+			// its deadline passed, while it was held back in front): reported like any other exchange — connected, then
+			// disconnected — and answered 499 / 504
+			if len(op) != 2 || (op[1] != 1 && op[1] != 2) {
+				return nil, false
+			}
+			x := &exchange{mode: 0, status: 200, bodyLen: 3, framing: 0, pieces: 1, body: []byte("abc"),
+				done: make(chan struct{}), backendDone: make(chan struct{}, 1), backendURL: e.rawURL}
+			e.mu.Lock()
+			e.cur = x
+			e.mu.Unlock()
+			req := httptest.NewRequest(http.MethodGet, "http://example.com/x", nil)
+			var cancel func()
+			ctx := req.Context()
+			if op[1] == 1 {
+				ctx, cancel = context.WithDeadline(ctx, time.Now().Add(-time.Second))
+			} else {
+				ctx, cancel = context.WithCancel(ctx)
+				cancel()
+			}
+			func() {
+				defer func() { _ = recover() }()
+				e.proxy(httptest.NewRecorder(), req.WithContext(ctx))
+			}()
+			cancel()
+			x.mu.Lock()
+			obs := []int64{int64(x.proxyStatus), int64(len(x.cbs))}
+			obs = append(obs, x.cbs...)
+			cbs := append([]int64{}, x.cbs...)
+			ps := x.proxyStatus
+			x.mu.Unlock()
+			h.Obs = append(h.Obs, obs)
+			if want := map[int64]int{1: 504, 2: 499}[op[1]]; ps != want {
+				hit("a request whose context was already done (state %d): the proxy wrote status %d, want %d", op[1], ps, want)
+			}
+			if len(cbs) != 2 || cbs[0] != 1 || cbs[1] != 2 {
+				hit("a request whose context was already done (state %d): state-listener calls %v, want [1 2] (connected, disconnected)", op[1], cbs)
 			}
 		case 3:
 			if len(op) != 2 || op[1] < 2 || op[1] > 200 {
@@ -849,7 +910,11 @@ func (e *env) client(x *exchange) (status int, body []byte, hdr http.Header, err
 		time.Sleep(30 * time.Millisecond)
 		return 0, nil, nil, errors.New("client went away")
 	}
-	resp, err := http.ReadResponse(bufio.NewReader(conn), nil)
+	br := bufio.NewReader(conn)
+	resp, err := http.ReadResponse(br, nil)
+	for err == nil && resp.StatusCode >= 100 && resp.StatusCode < 200 && resp.StatusCode != 101 {
+		resp, err = http.ReadResponse(br, nil) // interim responses come first
+	}
 	if err != nil {
 		return 0, nil, nil, err
 	}
@@ -874,6 +939,10 @@ func (c *comp) Describe(h *hlib.History) interface{} {
 			s = fmt.Sprintf("relayTogether(n=%d, %d bytes each)", op[1], op[2])
 		} else if op[0] == 3 && len(op) == 2 {
 			s = fmt.Sprintf("streamsTogether(n=%d)", op[1])
+		} else if op[0] == 4 && len(op) == 2 {
+			s = fmt.Sprintf("exchange(request context already %s)", []string{"", "past its deadline", "cancelled"}[op[1]])
+		} else if len(op) == 6 && op[1] >= 100 && int(op[1])-100 < len(modeNames) {
+			s = fmt.Sprintf("exchange(103 Early Hints first, then %s status=%d body=%d framing=%d pieces=%d)", modeNames[op[1]-100], op[2], op[3], op[4], op[5])
 		} else if len(op) == 6 && op[1] >= 0 && int(op[1]) < len(modeNames) {
 			s = fmt.Sprintf("exchange(%s status=%d body=%d framing=%d pieces=%d)", modeNames[op[1]], op[2], op[3], op[4], op[5])
 		}
@@ -893,14 +962,21 @@ func (c *comp) Nontrivial(h *hlib.History) string {
 			unit++
 		} else if op[0] == 2 {
 			hlib.Count("concurrent_relays", 1)
+		} else if op[0] == 4 {
+			hlib.Count("exchanges_with_context_already_done", 1)
 		} else if op[0] == 3 {
 			hlib.Count("concurrent_streams", 1)
 			if len(op) == 2 && op[1] > 64 {
 				hlib.Count("concurrent_streams_over_64", 1)
 			}
 		} else if len(op) > 1 {
-			modes[op[1]] = true
-			hlib.Count("exchange_"+modeNames[op[1]], 1)
+			m := op[1]
+			if m >= 100 {
+				m -= 100
+				hlib.Count("exchanges_with_early_hints", 1)
+			}
+			modes[m] = true
+			hlib.Count("exchange_"+modeNames[m], 1)
 		}
 	}
 	hlib.Count("error_handler_calls", int64(unit))
